@@ -440,6 +440,92 @@ def self_aliasing_appends(ctx):
     return n
 
 
+def self_aliasing_loads(ctx):
+    """load_data(copy=True) of an array that is a view of the receiver's own samples (broadcast, repeated, reversed, strided, tail),
+    shorter or longer than the buffer: the list model says `samples = the values the argument had when the call was made`"""
+    import numpy as np
+    from nitypes.waveform import AnalogWaveform, ComplexWaveform, DigitalWaveform, Spectrum
+    from props.common import outcome, show
+    n = 0
+    for cls, kind, dty in ((AnalogWaveform, "a", np.float64), (AnalogWaveform, "a", np.int16), (ComplexWaveform, "a", np.complex64), (Spectrum, "s", np.float64), (DigitalWaveform, "d", np.uint8)):
+        for size in (3, 8, 4096):
+            for how in ("broadcast-long", "broadcast-short", "repeat-strides", "reversed", "tail", "strided", "whole", "window-past-start"):
+                for grow_to in (size * 3 + 1, 200000):
+                    vals = (np.arange(size) % 2 if kind == "d" else np.arange(1, size + 1)).astype(dty)
+                    w = DigitalWaveform.from_lines(vals.reshape(-1, 1)) if kind == "d" else cls.from_array_1d(vals, dty)
+                    view = w.data if kind in ("s", "d") else w.raw_data
+                    one = view[size // 2: size // 2 + 1]
+                    start = None
+                    if how == "broadcast-long":
+                        arg = np.broadcast_to(one, (grow_to,) + view.shape[1:])
+                    elif how == "broadcast-short":
+                        arg = np.broadcast_to(one, (max(1, size - 1),) + view.shape[1:])
+                    elif how == "repeat-strides":
+                        arg = np.lib.stride_tricks.as_strided(view, (grow_to,) + view.shape[1:], (0,) + view.strides[1:], writeable=False)
+                    elif how == "reversed":
+                        arg = view[::-1]
+                    elif how == "tail":
+                        arg = view[size // 2:]
+                    elif how == "strided":
+                        arg = view[::2]
+                    elif how == "whole":
+                        arg = view
+                    else:
+                        arg, start = np.broadcast_to(one, (grow_to,) + view.shape[1:]), 5
+                    argvals = np.array(arg, copy=True)[(start or 0):]
+                    o = outcome(lambda: w.load_data(arg) if start is None else w.load_data(arg, start_index=start))
+                    after = w.data if kind in ("s", "d") else w.raw_data
+                    n += 1
+                    ctx.case(("self-alias-load", cls.__name__, size, how, grow_to))
+                    ctx.count("self-alias-load", how)
+                    if o[0] != "ok" or after.shape != argvals.shape or not np.array_equal(after, argvals):
+                        k = int(np.argmax((after != argvals).reshape(len(argvals), -1).any(axis=1))) if (o[0] == "ok" and after.shape == argvals.shape) else None
+                        ctx.violation(what="load_data of (a view of) the receiver's own samples", cls=cls.__name__, dtype=str(np.dtype(dty)), samples=size, argument=how, argument_length=len(arg),
+                                      first_wrong_sample=k, observed=(show(o)[:120] if o[0] != "ok" else (f"shape {after.shape}" if k is None else str(after[k]))),
+                                      required=(f"shape {argvals.shape}" if k is None else str(argvals[k])))
+                        return n
+    return n
+
+
+KNOWN_SITE = "DigitalWaveform.capacity setter: self._data_1d.resize(value, refcheck=False)"
+KNOWN_WHEN = "a second DigitalWaveform built with copy=False on the same 1-D array is alive while the array is grown in place and moves"
+
+
+def shared_1d_growth(ctx, report):
+    """Two DigitalWaveforms built with copy=False on ONE 1-D array: growing the first in place resizes the caller's array object
+    (refcheck=False); the second keeps its own 2-D view of the old allocation.  Observed without reading freed memory: after the growth
+    the second waveform's data no longer lies in the caller's array (and on a read it is whatever the allocator put there)."""
+    import numpy as np
+    from nitypes.waveform import DigitalWaveform
+    n = 0
+    for dty in (np.uint8, np.bool_):
+        for extra in (4096, 100000, 4000000):
+            a = np.array([1, 0, 1, 1, 0, 0, 1, 0], dty)
+            w1 = DigitalWaveform.from_lines(a, copy=False)
+            w2 = DigitalWaveform.from_lines(a, copy=False)
+            before = a.__array_interface__["data"][0]
+            w1.append(np.ones(extra, dty))
+            n += 1
+            ctx.case(("shared-1d-growth", str(np.dtype(dty)), extra))
+            moved = a.__array_interface__["data"][0] != before
+            if len(a) == 8 + extra and moved and not np.shares_memory(w2.data, a):
+                report(dict(site=KNOWN_SITE, when=KNOWN_WHEN, what="a waveform's data is no longer the caller's memory after ANOTHER object grew the shared array",
+                            dtype=str(np.dtype(dty)), appended=extra, observed=f"w2.data outside the caller's array (len {len(a)}), w2.capacity {w2.capacity}",
+                            required="w2.data is the first 8 samples of the caller's array [1, 0, 1, 1, 0, 0, 1, 0]"))
+                break
+    return n
+
+
+def _known_witness(ctx):
+    hits = []
+    shared_1d_growth(ctx, hits.append)
+    return bool(hits)
+
+
+KNOWN_MATCH = {"C01-F1": lambda v: v.get("site") == KNOWN_SITE and v.get("when") == KNOWN_WHEN}
+KNOWN_WITNESS = {"C01-F1": _known_witness}
+
+
 def run(ctx):
     world = H.World(ctx.rng)
     # the kinds of object accepted where an integer is (tier T12: Gen/Args.lean, Props/Args.lean) against the real converters
@@ -467,6 +553,8 @@ def run(ctx):
     ctx.extra["histories"] = n_hist + n_valid
     ctx.extra["borrowed_and_factory_calls"] = borrowed_and_factory_cases(ctx)
     ctx.extra["self_aliasing_appends"] = self_aliasing_appends(ctx)
+    ctx.extra["self_aliasing_loads"] = self_aliasing_loads(ctx)
+    ctx.extra["shared_1d_growth"] = shared_1d_growth(ctx, lambda v: ctx.violation(**v))
     ctx.extra["reads_change_nothing"] = reads_change_nothing(ctx)
     ctx.extra["narrow_scalar_calls"] = H.narrow_scalar_cases(ctx, lambda info, obs, req: ctx.violation(what="a call with narrow NumPy integer scalars differs from the call with the same Python ints", observed=obs, required=req, **info))
     ctx.extra["model_lines_compared"] = H.compare_with_model(ctx, world)
